@@ -135,6 +135,11 @@ pub struct Case {
     /// the final listing)
     #[serde(default)]
     pub mode: u8,
+    /// (pipelines) the last stage first runs a command with two redirections
+    /// of descriptor 0, `: </dev/null </dev/null`: afterwards descriptor 0 is
+    /// the pipe again
+    #[serde(default)]
+    pub twice: bool,
 }
 
 fn sizes() -> Vec<u32> {
@@ -312,12 +317,14 @@ pub fn generate(rng: &mut Rng, tier: Tier) -> Case {
         }
     };
     let closed_stdin = matches!(kind, Kind::Pipe { .. }) && rng.below(5) == 0;
+    let kind_is_pipe = matches!(kind, Kind::Pipe { .. });
     let mode = *rng.pick(&[0u8, 0, 0, 0, 1, 2]);
     Case {
         kind,
         dash_c: rng.bool() || mode == 1,
         closed_stdin,
         mode,
+        twice: matches!(kind_is_pipe, true) && rng.below(6) == 0,
     }
 }
 
@@ -392,8 +399,11 @@ fn render_body(c: &Case) -> (String, Option<String>) {
                 });
             }
             script.push_str(" | ");
+            let twice = if c.twice { ": </dev/null </dev/null; " } else { "" };
             if *sink_nap > 0 {
-                script.push_str(&format!("{{ nap {sink_nap}; sink {s} {alpha} {sink_buf}; }}"));
+                script.push_str(&format!("{{ {twice}nap {sink_nap}; sink {s} {alpha} {sink_buf}; }}"));
+            } else if c.twice {
+                script.push_str(&format!("{{ {twice}sink {s} {alpha} {sink_buf}; }}"));
             } else {
                 script.push_str(&format!("sink {s} {alpha} {sink_buf}"));
             }
@@ -779,6 +789,7 @@ fn pipe_failure(hist: &crate::pipes::PHist, class: String, detail: String) -> Fa
             dash_c: false,
             closed_stdin: false,
             mode: 0,
+            twice: false,
         })
         .unwrap(),
         cfg: SimConfig::default(),
@@ -797,6 +808,7 @@ fn waker_failure(hist: &crate::wakers::WHist, class: String, detail: String) -> 
             dash_c: false,
             closed_stdin: false,
             mode: 0,
+            twice: false,
         })
         .unwrap(),
         cfg: SimConfig::default(),
@@ -1053,6 +1065,7 @@ impl Prop for C14 {
                     dash_c: c.dash_c,
                     closed_stdin: c.closed_stdin,
                     mode: c.mode,
+                    twice: c.twice,
                 })
                 .unwrap(),
             )
